@@ -45,8 +45,9 @@ def gen_random_cfgs(ctx, n):
             pb = rng.choice([0, 0, 0, 1, 2, 3])
             mb = rng.choice([0, 1, 1, 2, 2, 3, 4])
             sb = rng.choice([0, 0, 1, 1, 2, 3, 5])
-        out.append({"grid": grid, "pb": pb, "mb": mb, "sb": sb,
-                    "enc": rng.choice(["raw", "raw", "gzip"])})
+        enc = rng.choice(["raw", "raw", "gzip"])
+        ienc = enc if rng.random() < 0.7 else rng.choice(["raw", "gzip"])
+        out.append({"grid": grid, "pb": pb, "mb": mb, "sb": sb, "enc": enc, "ienc": ienc})
     return out
 
 
@@ -98,7 +99,7 @@ def sig_of(rec, clause):
         if used != list(range(len(used))):
             f_gaps = True
     return {"clause": clause, "grid": rec["cfg"]["grid"], "pb": rec["cfg"]["pb"],
-            "mb": rec["cfg"]["mb"], "sb": rec["cfg"]["sb"], "enc": rec["enc"],
+            "mb": rec["cfg"]["mb"], "sb": rec["cfg"]["sb"], "enc": rec["enc"], "ienc": rec.get("ienc"),
             "strategy": rec["strategy"], "nstores": len(rec["stores"]),
             "store_errors": sorted({e["cls"] for e in rec["storeerr"]})}
 
@@ -246,7 +247,7 @@ def run(ctx):
         st, clause, _ = verdicts[case["tid"]]
         if st != "ok":
             ctx.violation(clause, sig_of(rec, clause),
-                          {"cfg": rec["cfg"], "enc": rec["enc"], "strategy": rec["strategy"],
+                          {"cfg": rec["cfg"], "enc": rec["enc"], "ienc": rec.get("ienc"), "strategy": rec["strategy"],
                            "order": [s["pos"] for s in rec["stores"]],
                            "storeerr": rec["storeerr"], "files": rec["files"]})
     for rec, case in cases[:2]:
@@ -260,7 +261,7 @@ def replay(ctx, path):
         rp = json.load(f)
     d = rp["detail"]
     work = ctx.scratch("verif_shard_")
-    cfg = dict(d["cfg"], enc=d.get("enc", "raw"))
+    cfg = dict(d["cfg"], enc=d.get("enc", "raw"), ienc=d.get("ienc"))
     rec = sd.run_session(work, cfg, [tuple(p) for p in d["order"]],
                          strategy=d.get("strategy", "in memory"), salt=0)
     sd.drop_dir(rec)
